@@ -24,7 +24,7 @@ Proof.
   - intros u o H1. by rewrite lookup_empty in H1.
   - intros u o H1. by rewrite lookup_empty in H1.
   - intros k sv b H1. by rewrite lookup_empty in H1.
-  - intros b [cl H1]. by rewrite lookup_empty in H1.
+  - split; [done|]. intros b [cl H1]. by rewrite lookup_empty in H1.
   - intros b cl cs H1. by rewrite lookup_empty in H1.
   - intros c cs serial b ce H1. by rewrite lookup_empty in H1.
   - intros serial c r cs H1. by apply elem_of_nil in H1.
